@@ -4,6 +4,7 @@ CONSTANTS
   Huge = 6
   Gran = 4
   Slack = 0
+  DirectMap = 1000
   EnvK = 2
   EnvC = 8
   Ids = {1, 2}
